@@ -1,12 +1,9 @@
 (* C05 - partial round trip: the line the writer produces for a NORMAL rule (basic / choice / disjunctive head) is read
    back by the reader's rule dispatcher as the rule with its body in negative-first order. *)
-Require Import V.Lib.Base V.Lib.Calls V.Lib.Dec V.C09.Spec V.Gen.Consts V.Gen.Consts_C07 V.C07.Model V.C07.Spec V.C07.ProofsLex V.C07.ProofsGram V.C05.Model V.C05.Proofs.
+Require Import V.Lib.Base V.Lib.Calls V.Lib.Dec V.C09.Spec V.Gen.Consts V.Gen.Consts_C07 V.C07.Model V.C07.Spec V.C07.ProofsLex V.C07.ProofsGram V.C05.Model V.C05.Spec V.C05.Proofs.
 Local Open Scope Z_scope.
 Ltac Zify.zify_post_hook ::= Z.div_mod_to_equations.
 
-Definition sp1 (a : Z) : num := ([32], a).
-Definition atom_rng (a : Z) : bool := (1 <=? a) && (a <=? atomMax).
-Definition lit_rng (l : Z) : bool := negb (l =? 0) && (Z.abs l <=? atomMax).
 
 Lemma u32_id a : 0 <= a <= 4294967295 -> u32 a = a.
 Proof. unfold u32. intros. lia. Qed.
@@ -20,8 +17,6 @@ Qed.
 Lemma filter_len {A} (f : A -> bool) l : (length (filter f l) + length (filter (fun x => negb (f x)) l) = length l)%nat.
 Proof. induction l as [|a l IH]; cbn [filter length]; [reflexivity|]. destruct (f a); cbn [negb length]; lia. Qed.
 
-Definition lay_body (b : list Z) : lbody :=
-  mkbody [32] (sp1 (Z.of_nat (length (negs (fun x => x) b)))) (map sp1 (map Z.abs (norm_body b))).
 
 Lemma forallb_Forall {A} (f : A -> bool) l : forallb f l = true -> Forall (fun x => f x = true) l.
 Proof. intros H. apply Forall_forall. now apply forallb_forall. Qed.
